@@ -1398,15 +1398,21 @@ theorem odd_divisor_of_not_pow2P (n : Nat) (hn : n ≠ 0) (h : pow2P n = false) 
   · exact ⟨m, by omega, hm, ⟨2 ^ k, by rw [e, Nat.mul_comm]⟩⟩
 
 
-/-- `exact = mpz_root (q, u2, nth)` under the contract of mpn_rootrem. -/
-theorem rootExact_spec (hrr : RootremSpec) (a nth : Nat) (ha : 0 < a) (hn : 1 ≤ nth) :
+/-- the contract of mpn_rootrem at one operand/index pair. -/
+def RootremAt (a k : Nat) : Prop := ∀ w,
+  (rootrem a (limbCount a) k w).1 = iroot k a ∧
+  ((rootrem a (limbCount a) k w).2 = 0 ↔ (iroot k a) ^ k = a) ∧
+  (w = true → (rootrem a (limbCount a) k w).2 = a - (iroot k a) ^ k)
+
+/-- `exact = mpz_root (q, u2, nth)` under the contract of mpn_rootrem at this operand and index. -/
+theorem rootExact_spec (a nth : Nat) (hrr : 2 ≤ nth → RootremAt a nth) (ha : 0 < a) (hn : 1 ≤ nth) :
     rootExact a nth = (iroot nth a, decide ((iroot nth a) ^ nth = a)) := by
   unfold rootExact
   rw [if_neg (by omega)]
   by_cases h1 : nth = 1
   · subst h1; simp [iroot_one]
   · rw [if_neg h1]
-    obtain ⟨r1, r2, -⟩ := hrr a nth false ha (by omega)
+    obtain ⟨r1, r2, -⟩ := hrr (by omega) false
     generalize rootrem a (limbCount a) nth false = res at *
     obtain ⟨r, m⟩ := res
     simp only at r1 r2 ⊢
@@ -1484,13 +1490,14 @@ theorem isPP_conclude (u : Int) (y t m n2 : Nat) (hm : 2 ≤ m) (hdvd : m ∣ n2
   refine isPP_of_mag u (y ^ c * t) m hm hodd ?_
   rw [h, mul_pow, ← pow_mul, Nat.mul_comm c m]
 
-theorem rootExact_true (hrr : RootremSpec) (a m : Nat) (ha : 0 < a) (hm : 1 ≤ m)
+theorem rootExact_true (a m : Nat) (hrr : 2 ≤ m → RootremAt a m) (ha : 0 < a) (hm : 1 ≤ m)
     (h : (rootExact a m).2 = true) : a = (iroot m a) ^ m := by
-  rw [rootExact_spec hrr a m ha hm] at h
+  rw [rootExact_spec a m hrr ha hm] at h
   have h' : iroot m a ^ m = a := by simpa using h
   exact h'.symm
 
-theorem ppFactor_sound (hrr : RootremSpec) (u : Int) (hu : u ≠ 0) : ∀ (ps : List Nat) (a n2 : Nat),
+theorem ppFactor_sound (u : Int) (hrr : ∀ a k, 0 < a → 2 ≤ k → a ∣ u.natAbs → RootremAt a k) (hu : u ≠ 0) :
+    ∀ (ps : List Nat) (a n2 : Nat),
     (∃ y, u.natAbs = y ^ n2 * a) →
     match ppFactor (decide (u < 0)) ps a n2 with
     | .inl b => b = true → IsPP u
@@ -1553,19 +1560,20 @@ theorem ppFactor_sound (hrr : RootremSpec) (u : Int) (hu : u ≠ 0) : ∀ (ps : 
                 intro hb
                 obtain ⟨n1, n2'⟩ := ppN2prime_sound _ a' g hb
                 obtain ⟨f1, f2⟩ := isprime_facts g h6
-                have hr := rootExact_true hrr a' g ha' (by omega) n2'
+                have hr := rootExact_true a' g (fun h => hrr a' g ha' h ⟨_, by rw [hinv', Nat.mul_comm]⟩) ha' (by omega) n2'
                 refine isPP_conclude u (y ^ c1 * p ^ c2) (iroot g a') g g f1 (dvd_refl g) ?_ (by rw [hinv', ← hr])
                 intro hneg
                 exact f2 (fun h2 => n1 ⟨h2, by simpa using hneg⟩)
               · rw [if_neg h6]
-                exact ppFactor_sound hrr u hu ps a' g ⟨_, hinv'⟩
+                exact ppFactor_sound u hrr hu ps a' g ⟨_, hinv'⟩
     · rw [if_neg h1]
-      exact ppFactor_sound hrr u hu ps a n2 hinv
+      exact ppFactor_sound u hrr hu ps a n2 hinv
 
 
 /-- mpz_perfect_power_p never answers "yes" on a number that is not a perfect power (given the contract
     of mpn_rootrem for the exactness flags). -/
-theorem perfect_power_sound (hrr : RootremSpec) (u : Int) (h : mpzPerfectPowerP u = true) : IsPP u := by
+theorem perfect_power_sound_at (u : Int) (hrr : ∀ a k, 0 < a → 2 ≤ k → a ∣ u.natAbs → RootremAt a k)
+    (h : mpzPerfectPowerP u = true) : IsPP u := by
   unfold mpzPerfectPowerP at h
   by_cases h0 : u = 0
   · subst h0; exact ⟨0, 2, by omega, by norm_num⟩
@@ -1589,12 +1597,12 @@ theorem perfect_power_sound (hrr : RootremSpec) (u : Int) (h : mpzPerfectPowerP 
         · rw [if_pos h3] at h
           obtain ⟨n1, n2'⟩ := ppN2prime_sound _ a2 n2 h
           obtain ⟨f1, f2⟩ := isprime_facts n2 h3
-          have hr := rootExact_true hrr a2 n2 ha2 (by omega) n2'
+          have hr := rootExact_true a2 n2 (fun h => hrr a2 n2 ha2 h ⟨_, by rw [hsc, Nat.mul_comm]⟩) ha2 (by omega) n2'
           refine isPP_conclude u 2 (iroot n2 a2) n2 n2 f1 (dvd_refl _) ?_ (by rw [hsc, ← hr])
           intro hneg
           exact f2 (fun hh => n1 ⟨hh, by simpa using hneg⟩)
         · rw [if_neg h3] at h
-          have key := ppFactor_sound hrr u h0 (perfpowPrimes.drop 1) a2 n2 ⟨2, hsc⟩
+          have key := ppFactor_sound u hrr h0 (perfpowPrimes.drop 1) a2 n2 ⟨2, hsc⟩
           generalize ppFactor (decide (u < 0)) (perfpowPrimes.drop 1) a2 n2 = res at *
           cases res with
           | inl b => exact key h
@@ -1610,7 +1618,7 @@ theorem perfect_power_sound (hrr : RootremSpec) (u : Int) (h : mpzPerfectPowerP 
             · rw [if_pos h4] at h
               obtain ⟨m, m1, m2, -, m4⟩ := ppRoots_sound a3 none _ _ h
               obtain ⟨f1, f2⟩ := isprime_facts m m2
-              have hr := rootExact_true hrr a3 m ha3 (by omega) m4
+              have hr := rootExact_true a3 m (fun h => hrr a3 m ha3 h ⟨_, by rw [hy, Nat.mul_comm]⟩) ha3 (by omega) m4
               refine isPP_conclude u y (iroot m a3) m n3 f1 (by rw [h4]; exact dvd_zero m) ?_ (by rw [hy, ← hr])
               intro hneg
               have : decide (u < 0) = true := by simpa using hneg
@@ -1619,7 +1627,7 @@ theorem perfect_power_sound (hrr : RootremSpec) (u : Int) (h : mpzPerfectPowerP 
             · rw [if_neg h4] at h
               obtain ⟨m, m1, m2, m3, m4⟩ := ppRoots_sound a3 (some n3) _ _ h
               obtain ⟨f1, f2⟩ := isprime_facts m m2
-              have hr := rootExact_true hrr a3 m ha3 (by omega) m4
+              have hr := rootExact_true a3 m (fun h => hrr a3 m ha3 h ⟨_, by rw [hy, Nat.mul_comm]⟩) ha3 (by omega) m4
               refine isPP_conclude u y (iroot m a3) m n3 f1 (Nat.dvd_of_mod_eq_zero (m3 n3 rfl)) ?_
                 (by rw [hy, ← hr])
               intro hneg
@@ -1629,6 +1637,10 @@ theorem perfect_power_sound (hrr : RootremSpec) (u : Int) (h : mpzPerfectPowerP 
 
 
 
+
+/-- the same under the global contract (old form). -/
+theorem perfect_power_sound (hrr : RootremSpec) (u : Int) (h : mpzPerfectPowerP u = true) : IsPP u :=
+  perfect_power_sound_at u (fun a k ha hk _ w => hrr a k w ha hk) h
 
 /-! ### mpn_perfect_square_p: the normalising final test -/
 
@@ -1662,11 +1674,6 @@ theorem perfectSquareFinal_iff (up : List Nat) (hl : Limbs up) :
 
 /-! ### mpz_root & co with a local contract for mpn_rootrem; the root-is-1 exit -/
 
-/-- the contract of mpn_rootrem at one operand/index pair. -/
-def RootremAt (a k : Nat) : Prop := ∀ w,
-  (rootrem a (limbCount a) k w).1 = iroot k a ∧
-  ((rootrem a (limbCount a) k w).2 = 0 ↔ (iroot k a) ^ k = a) ∧
-  (w = true → (rootrem a (limbCount a) k w).2 = a - (iroot k a) ^ k)
 
 theorem mpzRootCore_ok_at (u : Int) (n : Nat) (w : Bool) (hloc : u ≠ 0 → 2 ≤ n → RootremAt u.natAbs n)
     (h1 : ¬(u < 0 ∧ n % 2 = 0)) (h2 : n ≠ 0) :
